@@ -357,8 +357,11 @@ def main(argv):
     searched = 0
     if broken and not violations and okb and not a.no_search and not a.replay:
         log("[%s] %s broken — searching for a concrete failing input (larger neighbourhood)" % (pid, broken[0][0]))
-        for k in range(1, 4):
-            res = harness_pass(pid, prop, binpath, workdir, "search%d" % k, seed + 7919 * k, tier, 4 * k)
+        t_search = time.time()
+        for k in range(1, 3):
+            if time.time() - t_search > 240:
+                break
+            res = harness_pass(pid, prop, binpath, workdir, "search%d" % k, seed + 7919 * k, tier, 2 * k, timeout=600)
             searched += res["stats"].get("evaluations", 0) if res["stats"] else 0
             if res["infra_error"]:
                 continue
